@@ -619,13 +619,16 @@ pub fn run(ctx: &Ctx, cov: &mut Cov, viol: &mut Vec<Violation>) -> Value {
             viol.extend(v);
         }
     }
+    // long-list family: rows spanning several mini-block chunks (random access through all-preamble chunks)
+    let long_scope = crate::longlist::run(ctx, &["2.1", "2.2"], cov, viol);
+    eprintln!("[c27] long-list family done at {:.1}s", ctx.elapsed_s());
     cov.sample(case_json(
         &[Layer::List, Layer::Struct],
         &[V::List(vec![V::Struct(Box::new(V::Null)), V::Null]), V::Null, V::List(vec![])],
         &FileCfg { version: "2.1", structural: "fullzip", leaf: "utf8", large_lists: false, split: 0, tile: 1, pages: false },
         &json!({"indices":[0,2]}),
     ));
-    json!({"per_stack": scope, "configs": cfgs.iter().map(|c| c.to_json()).collect::<Vec<_>>(), "tiled_files": tiled_files,
+    json!({"long_list_family": long_scope, "per_stack": scope, "configs": cfgs.iter().map(|c| c.to_json()).collect::<Vec<_>>(), "tiled_files": tiled_files,
            "reads_per_file": "full + every non-empty row subset as indices and as ranges (batch sizes 1024 and 1)",
            "capped": capped.load(std::sync::atomic::Ordering::SeqCst)})
 }
